@@ -11,7 +11,7 @@
    (channel values, channel mask bits) of one target location. *)
 From Coq Require Import ZArith Bool List Lia Reals PrimFloat Permutation.
 From PR Require Import Base.Num Base.RNum Base.F64 Model.KDTree
-     Model.C02_run Gen.GenC02 Proofs.C02_lists Proofs.C02_query Proofs.C02_pipeline Proofs.C02_main Proofs.C02_fast Proofs.C02_gen Proofs.C02_sphere Proofs.C02_ext
+     Model.C02_run Gen.GenC02 Proofs.C02_lists Proofs.C02_query Proofs.C02_pipeline Proofs.C02_main Proofs.C02_fast Proofs.C02_gen Proofs.C02_sphere Proofs.C02_ext Proofs.C02_history
      Base.Slice Model.Partition Proofs.C03_sphere.
 From PR Require Model.Organise.
 Import ListNotations.
@@ -313,6 +313,30 @@ Theorem C02_any_nprocs : forall (knn : list nat -> nat -> nat) (vin vout : list 
   Organise.run_workers (knn (KDTree.compact vin)) (KDTree.compact vout) handed init = snd (KDTree.neighbour_info knn vin vout).
 Proof. exact any_nprocs. Qed.
 Print Assumptions C02_any_nprocs.
+
+(* ------------------------------------------------------------------------------------------------------------
+   Histories: neighbour info computed once and used for any sequence of datasets.  [step] is what one
+   get_sample_from_neighbour_info call does to the caller's arrays (state) and returns.  Named hypotheses, both checked
+   on the implementation for every case of every run: H_pure (all array arguments equal their snapshots after each
+   call) and H_res (the correspondence).  Then every call of every history returns the fresh resample_nearest result.
+   C02_dirty_history_differs: a step editing the index array in place is not pure and its second use differs. *)
+Theorem C02_history_independent_if : forall (S A B : Type) (f : S -> A -> B) (step : S -> A -> S * B),
+  (forall st d, fst (step st d) = st) -> (forall st d, snd (step st d) = f st d) ->
+  forall st ds, run_history step st ds = map (f st) ds.
+Proof. exact (@history_independent). Qed.
+Print Assumptions C02_history_independent_if.
+Theorem C02_info_reuse_history_if : forall (V D : Type) (veqb : V -> V -> bool) (vzero vone : V)
+    (knn : list nat -> nat -> nat) (tshape : list Z) (vin vout : list bool)
+    (step : info_t -> dataset (V := V) (D := D) -> info_t * sample),
+  (forall st d, fst (step st d) = st) -> (forall st d, snd (step st d) = sample_of veqb vzero vone tshape st d) ->
+  forall ds, run_history step (neighbour_info knn vin vout) ds = map (fresh veqb vzero vone knn tshape vin vout) ds.
+Proof. exact (@nn_history). Qed.
+Print Assumptions C02_info_reuse_history_if.
+Theorem C02_dirty_history_differs :
+  run_history dirty_step [0; 2; 1] [2; 2] = [[0; 99; 1]; [0; 0; 1]] /\
+  map (fun n => snd (dirty_step [0; 2; 1] n)) [2; 2] = [[0; 99; 1]; [0; 99; 1]].
+Proof. exact dirty_history_differs. Qed.
+Print Assumptions C02_dirty_history_differs.
 
 (* ------------------------------------------------------------------------------------------------------------
    Cartesian.transform_lonlats (Model/KDTree.v: transform_lonlat, cos / sin oracles) over the reals: every location
